@@ -366,29 +366,47 @@ class BodyPartReader:
         """
         if self._at_eof:
             return b""
-        carry = self._b64_carry
-        want = size - len(carry)
-        if carry:
-            self._b64_carry = b""
-            want = max(want, self._boundary_len)
-        if self._length:
-            fresh = await self._read_chunk_from_length(want)
-        else:
-            fresh = await self._read_chunk_from_stream(want)
-        chunk = carry + fresh
-        self._read_bytes += len(fresh)
-
-        # base64 decodes in quartets and every chunk is decoded on its own, so
-        # a chunk should not end mid-quartet.
         encoding = self.headers.get(CONTENT_TRANSFER_ENCODING)
-        if encoding and encoding.lower() == "base64":
-            chunk = self._align_base64_chunk(chunk, len(carry) + want)
+        while True:
+            carry = self._b64_carry
+            want = size - len(carry)
+            if carry:
+                self._b64_carry = b""
+                want = max(want, self._boundary_len)
+            if self._length:
+                fresh = await self._read_chunk_from_length(want)
+            else:
+                fresh = await self._read_chunk_from_stream(want)
+            chunk = carry + fresh
+            self._read_bytes += len(fresh)
 
-        if self._read_bytes == self._length:
-            self._at_eof = True
+            # base64 decodes in quartets and every chunk is decoded on its own,
+            # so a chunk should not end mid-quartet.
+            if encoding and encoding.lower() == "base64":
+                chunk = self._align_base64_chunk(chunk, len(carry) + want)
+            elif encoding and encoding.lower() == "quoted-printable":
+                chunk = self._align_qp_chunk(chunk)
+
+            if self._read_bytes == self._length:
+                self._at_eof = True
+            if chunk or self._at_eof or not self._b64_carry:
+                break
+            # Less than a quartet has arrived so far (an empty chunk would
+            # read as the end of the part): wait for the rest of it.
         if self._at_eof and await self._content.readline() != b"\r\n":
             raise ValueError("Reader did not read all the data or it is malformed")
         return chunk
+
+    def _align_qp_chunk(self, chunk: bytes) -> bytes:
+        # Likewise for quoted-printable: an escape ("=3D") or a soft line
+        # break ("=\r\n") is not cut in two.
+        at_end = self._at_eof or (
+            self._length is not None and self._read_bytes >= self._length
+        )
+        if at_end or (i := chunk.rfind(b"=", -2)) < 0:
+            return chunk
+        self._b64_carry = chunk[i:]
+        return chunk[:i]
 
     def _align_base64_chunk(self, chunk: bytes, size: int) -> bytes:
         at_end = self._at_eof or (
@@ -410,7 +428,7 @@ class BodyPartReader:
             cut -= 1
             if chunk[cut] in _BASE64_CHARS:
                 left -= 1
-        if not cut:
+        if not cut and len(chunk) >= size:
             # No whole quartet to hand back, and carrying the lot would make
             # no progress: the caller asked for this many bytes, and a part
             # that holds no quartet within them holds none to give.
